@@ -11,6 +11,7 @@ mod ops3;
 mod ops4;
 mod ops5;
 mod ops6;
+mod ops7;
 
 fn main() {
     std::panic::set_hook(Box::new(|_| {}));
